@@ -193,13 +193,16 @@ def run(S, tier, rep):
     # to one (times the cell volume) and, for torque, the Peskin first moment to vanish: the identities of the weight
     # kernels are decided exactly as under C06 and recorded here as the conservation clause of this property
     from ..report import Report
-    from .c06 import kernel_identities
+    from .c06 import kernel_identities, support_and_window
     tmp = Report("C07", "other")
     for dim in (2, 3):
+        # the identities are statements about weights evaluated at the true distances between the marker and the cells of its
+        # window (for any grid origin / shift): the support kernel must deliver exactly those
+        support_and_window(S, tmp, dim)
         for kind in ("cosine", "peskin"):
             kernel_identities(S, tmp, dim, kind)
     for o in tmp.obligations:
-        if o["rule"] in ("C06.c", "C06.m"):
+        if o["rule"] in ("C06.c", "C06.m", "C06.a"):
             o = dict(o, rule="C07.conserve")
             if "key" in o:
                 o["key"] = o["key"].replace("C06.", "C07.conserve.")
